@@ -75,6 +75,10 @@ struct Case {
     /// that the crash lands inside a publish / ack / import call.
     #[serde(default)]
     crash_inside_us: Option<u8>,
+    /// Ack policy of the node that re-opens the stream after the crash (the replay set is defined
+    /// by the cursor persisted *before* re-opening, whichever policy replays it).
+    #[serde(default)]
+    restart_automatic: bool,
 }
 
 #[derive(Clone, Debug, Serialize, Deserialize)]
@@ -410,7 +414,8 @@ fn check_in(case: &Case, dir: &Path) -> CaseResult {
         let c_of = |author: &VerifyingKey| cursor.log_height(author, &log_id).copied();
 
         // 2. Restart and collect what is replayed.
-        let node = spawn_node(&db_url, AckPolicy::Explicit).await?;
+        let restart_policy = if case.restart_automatic { AckPolicy::Automatic } else { AckPolicy::Explicit };
+        let node = spawn_node(&db_url, restart_policy).await?;
         let (tx, mut rx): (StreamPublisher<String>, StreamSubscription<String>) = node
             .stream_from(topic, StreamFrom::Frontier)
             .await
@@ -564,6 +569,7 @@ fn check_in(case: &Case, dir: &Path) -> CaseResult {
             .label_if(!clean && case.crash_inside_us.is_some(), "crash_inside_a_step")
             .label_if(clean, "clean_drop")
             .label_if(case.explicit_policy, "explicit_policy")
+            .label_if(case.restart_automatic, "restart_with_automatic_policy")
             .label_if(unacked_exists, "stored_never_acked_operation_at_restart")
             .label_if(cursor.state().values().any(|l| !l.is_empty()), "cursor_non_empty_at_restart")
             .label_if(journal.iter().any(|j| matches!(j, Journal::AckOk { .. })), "journaled_explicit_ack")
@@ -612,6 +618,7 @@ pub fn run(mut ctx: Ctx) -> ! {
                     steps,
                     crash_raw,
                     crash_inside_us: None,
+                    restart_automatic: false,
                 });
             // Structured histories: deliver and acknowledge a prefix, then produce more
             // operations and crash late – the shape in which the cursor sits strictly inside a
@@ -655,12 +662,14 @@ pub fn run(mut ctx: Ctx) -> ! {
                         steps,
                         crash_raw,
                         crash_inside_us: None,
+                        restart_automatic: false,
                     }
                 });
             let base = prop_oneof![1 => random, 1 => structured];
             // 40 %: the crash lands inside the chosen step instead of in front of it.
-            (base, prop::option::weighted(0.4, any::<u8>())).prop_map(|(mut case, inside)| {
+            (base, prop::option::weighted(0.4, any::<u8>()), any::<bool>()).prop_map(|(mut case, inside, restart_automatic)| {
                 case.crash_inside_us = inside;
+                case.restart_automatic = restart_automatic;
                 case
             })
         },
